@@ -208,6 +208,7 @@ ROUND9 = {
 
 
 ROUND10 = {
+    'C08': 'A work chain that waits through a plain Wait command, checkpointed while it waits.',
     'C03': 'Hooks of a nested request (a listener answering the paused notification with play) fail; EXCEPTED endings after requester faults are compared with the fault-free run.',
     'C09': 'A spec class whose get_outline() brackets the declared outline with bookkeeping steps.',
     'C06': 'Process classes with a WAITING state class of their own.',
